@@ -493,7 +493,7 @@ class Engine:
             else:
                 assert isinstance(sub_flow, list)
                 for dependency in sub_flow:
-                    dependency = path + dependency
+                    dependency = normalize_path(path + dependency)
                     if dependency not in step_paths:
                         raise ValueError(
                             f'Unknown dependency step {dependency} is '
